@@ -356,6 +356,8 @@ def run(prog: Program) -> Results:
     from sa.rules import poslint
     poslint.check(prog, res, "R-C04-9")
     filter_in_search(prog, res, "R-C04-10")
+    from sa.rules.c12 import check_bare_names
+    check_bare_names(prog, res, "R-C04-14")  # the addressed binding is found by its spelling: one way of writing a name (shared with R-C12-2)
     loop_invariant_guards(prog, res, "R-C04-12")
     # editing through a reference lands on the binding the resolver designates (shared with R-C10-5)
     from sa.rules import c10 as _c10
